@@ -92,6 +92,13 @@ CHECKS['C20'] = {
     'technique': 'TLA+ exact closed forms + decision table enumerated by TLC and replayed; TLC-validated observation events',
 }
 
+CHECKS['C03'] = {
+    'text': 'Scaling theorems are TLC invariants of the kernel specifications (Correlation: Raw(cx)=|c|^2 Raw(x); Yule-Walker/Levinson: coefficients and reflection coefficients invariant, variance x |c|^2, for c in {2,-1,i,1+i}) on the whole bounded universe, whose members x and c*x are all replayed by the kernel checks. On float data every estimator of the zoo (12 classes, 18 functional forms) is evaluated on x and c*x, |c| log-uniform in [1e-3,1e3] with complex c for complex data, and ObsC03.tla holds the law table (|c|^2 for PSDs, variances and correlations; invariant coefficients, weights, taper eigenvalues, MUSIC; |c| for EV and singular values; linear eigenspectra) plus unchanged integer decisions (AIC/MDL subspace dimension, Burg order for six criteria).',
+    'design_ref': 'DESIGN.md 3/C03',
+    'note': 'The factor-1e6 dynamic range is decided from quantised observation events (1e-4 relative) only; the exact universe reaches |c|<=2.',
+    'technique': 'TLC invariants (scaling theorems) on exact kernels + TLC-validated observation events with a law table in TLA+',
+}
+
 NOT_APPLICABLE = {
     'C18': 'Slepian tapers: irrational eigenproblem solved in C; no exact finite model exists and quantised re-verification would make Python the oracle (a different technique). DESIGN.md section 4.',
 }
